@@ -49,6 +49,8 @@ def cells(tier, seed):
         if c["kinds"] and "same" not in c["kinds"]:
             if tier == "quick" and len(c["kinds"]) == 2 and c["kinds"][0] not in mutable:
                 continue        # quick: two-argument calls only with a mutable first argument
+            if tier == "quick" and len(c["kinds"]) == 3 and c["kinds"][0] not in mutable:
+                continue
             out.append(dict(c, k2="preserve"))
     n = bounds(tier)["alias_ops"]
     for first in range(len(OPS)):
